@@ -140,7 +140,7 @@ class HashSpec(Spec):
     # ---------------------------------------------------------------- cases
     def closure(self, tier):
         q = tier == 'quick'
-        k = 1 if q else 12
+        k = 1 if q else 6
         keys = '0,0,1,2'
         ins = 'insert 0 0; insert 0 1; insert 0 2; insert 0 3'
         runs = [
@@ -165,7 +165,7 @@ class HashSpec(Spec):
         return cases, st
 
     def random_cases(self, tier, seed):
-        return gen_random(seed, 350 if tier == 'quick' else 4000, self.prop)
+        return gen_random(seed, 350 if tier == 'quick' else 3000, self.prop)
 
     def nontrivial(self, case, model):
         return sum(1 for l in model if l.startswith('ok')) >= 2
@@ -326,7 +326,29 @@ def gen_random(seed, n, prop):
 
 # -------------------------------------------------------------------- oracle
 
+def coarse(prop, key):
+    """Few, stable oracle keys (the engine shrinks one replay per key): what
+    kind of property violation, not which operation showed it."""
+    name, _, kind = key.partition(':')
+    if 'timeout' in kind:
+        return 'timeout'
+    if kind.split(':')[0] in ('fault', 'abort', 'no-output', 'garbled'):
+        return 'crash' + (':after-clear' if kind.endswith('after-clear') else '')
+    if prop == 'C04':
+        return 'clear' if name == 'clear' else 'enumeration'
+    if prop == 'C19':
+        return {'load': 'lands', 'geometry': 'lands', 'hash-calls': 'hash-calls'}.get(kind, 'work')
+    if prop == 'C16':
+        return kind
+    return name if name in ('find', 'size') else ('size' if kind == 'size' else 'contents')
+
+
 def oracle(prop, case, impl):
+    r = oracle_fine(prop, case, impl)
+    return None if r is None else (coarse(prop, r[0]), r[1])
+
+
+def oracle_fine(prop, case, impl):
     """Check the texts of C03 / C04 / C19 on the implementation trace alone.
     -> None or (key, message).  Stops silently where the script leaves the
     domain (Precond in the model) or once a deliberately bad hash function is
